@@ -505,6 +505,10 @@ def generic_rules(ctx) -> None:
         sf = generic2.signed_formats(ctx, f"{ctx.chk.prop}.signed-format", files)
         fb = generic2.instance_from_bytes(ctx, f"{ctx.chk.prop}.from-bytes-class", files)
         ctx.chk.extra["from_bytes_sites_scanned"] = fb
+        wf = generic2.wire_field_replaced(ctx, f"{ctx.chk.prop}.wire-field-replaced", files)
+        ctx.chk.extra["unpacking_functions_scanned"] = wf
+        if wf:
+            ctx.chk.ok(f"{ctx.chk.prop}.wire-field-replaced", "anchor modules", f"{wf} functions that unpack wire fields scanned; no field read from the input is replaced by an unrelated value (1 guarded re-assignment)")
         dk = generic2.db_key_lookups(ctx, f"{ctx.chk.prop}.db-key-exists", files)
         ctx.chk.extra["database_lookups_scanned"] = dk
         if dk:
